@@ -454,6 +454,8 @@ func runC01(c *Ctx) {
 			return "ok"
 		})
 		c.Pred("msg", "msg-roundtrip", in, out == "ok", out, "ok", nt)
+		// the whole-message decoder and plain packer of the Lean model (message_roundtrip, pack_unpack_message) on the same octets
+		msgUnpackCorr(c, "msg", wire)
 	}
 	// 5. RDATA-less (RFC 2136) records: unpack then pack must reproduce RDLENGTH 0
 	for _, typ := range types {
